@@ -10,12 +10,13 @@ Oracle: structural sets from the abstract tissue; L1 construction exact w.r.t. t
 centre; L2 fitted tangent within the documented fit budget of the analytic tangent.
 """
 import cmath
+import itertools
 import math
 
 import numpy as np
 
 from fsmc import bases, tissue as T, fsutil, pairs
-from fsmc.explorer import ProductSystem
+from fsmc.explorer import ProductSystem, ListSystem
 from fsmc.ref import tangent as RT
 
 PID = "C02"
@@ -26,7 +27,7 @@ BOUND = {"quick": "deviation bound d=2 around the centre of 2 Voronoi bases (+1 
 ASSUMPTIONS = ["a two-point interface is the straight segment through its two points",
                "fit budget (L2): taubinSVD 1e-9 on any curved arc; dlite 1e-7 on arcs turning >= 0.1 rad (leastsq termination tolerance), 5e-3 on flatter arcs; collinear points exact; translations <= 10 tissue sizes",
                "L1 uses the library's public calculate_circle_center for the centre (fit accuracy is judged separately by L2)"]
-REQUIRED_TAGS = {"all": ["rows>0", "straight", "curved", "two_point", "ignore_four", "taubin", "fourfold", "axis_aligned", "lens", "mixed_point_counts"]}
+REQUIRED_TAGS = {"all": ["rows>0", "straight", "curved", "two_point", "ignore_four", "taubin", "fourfold", "axis_aligned", "lens", "mixed_point_counts", "rebuilt"]}
 
 L1_TOL = 1e-11
 
@@ -46,7 +47,7 @@ def unit(z):
     return z / abs(z)
 
 
-def evaluate_matrix(at, k, cm, fit, ignore_four, lab=None, want_obs=False):
+def evaluate_matrix(at, k, cm, fit, ignore_four, lab=None, want_obs=False, prebuilds=()):
     """build the tissue, the frame and the ForceMatrix; judge it. Returns result dict pieces."""
     import forsys as fs
     import forsys.virtual_edges as ve
@@ -55,6 +56,9 @@ def evaluate_matrix(at, k, cm, fit, ignore_four, lab=None, want_obs=False):
         v, e, c, info = T.realise(at, k=k, cmap=cm, lab=lab)
         frame = T.frame_of(v, e, c)
         s = fs.ForSys({0: frame})
+    for kw in prebuilds:
+        # earlier builds on the same objects, with other options: the judged build below must not see any trace of them
+        fsutil.call(s.build_force_matrix, when=0, **kw)
     _, ex = fsutil.call(s.build_force_matrix, when=0, circle_fit_method=fit, metadata={"ignore_four": ignore_four}, angle_limit=np.inf)
     if ex is not None:
         return [{"what": "build_force_matrix raised", "detail": fsutil.exc_str(ex)}], known, tags, None
@@ -398,14 +402,45 @@ class Lattices(ProductSystem):
         return [], []
 
 
+def eval_rebuild(d):
+    """the matrix is assembled a second time on the SAME objects after an earlier build with other options (an excluding angle
+    limit, the other fit, ignore_four): the second matrix is judged exactly like a first one"""
+    from checks import c10
+    at = bases.get(d["base"])
+    cm = make_cmap(d["mob"], d["rot"], (0, 0), 1.0, extent_of(at))
+    pre = d["pre"]
+    kws = []
+    for p_ in pre:
+        if p_ == "excluding":
+            kws.append({"angle_limit": c10.angle_limit_for(at, cm)})
+        elif p_ == "pi":
+            kws.append({"angle_limit": math.pi})
+        elif p_ == "other_fit":
+            kws.append({"circle_fit_method": "taubinSVD" if d["fit"] == "dlite" else "dlite"})
+        elif p_ == "ignore_four":
+            kws.append({"metadata": {"ignore_four": True}})
+        elif p_ == "default":
+            kws.append({})
+    viol, known, tags, obs = evaluate_matrix(at, 3, cm, d["fit"], False, prebuilds=kws)
+    for v in viol:
+        v["what"] = "[after earlier builds %s on the same objects] %s" % (pre, v["what"])
+    return {"viol": viol, "known": known, "tags": list(tags) + ["rebuilt"], "cls": "%s/%s/%s/%s" % (d["base"], d["mob"][0], d["fit"], "+".join(pre)), "nontrivial": True}
+
+
 def build(tier, seed):
     if tier == "quick":
         return [Geometry(["v5x5", "v4x4p%d" % (seed + 1)], 2, 12, seed),
                 SubTissues("v5x4", [0, 1, 2, 5], [["id"], ["m", 0.05, 0.02]]),
                 SubTissues("fan5", [2, ["mod3", 0, 3, 1]], [["id"], ["m", 0.05, 0.02]]),       # many-fold junctions ON the border
                 SubTissues("square3x3", [1], [["m", 0.05, 0.02]]),
-                Lattices(["square4x4", "brick4x4", "hex3x3", "fan5", "fan6", "fan4", "lens"], 12)]
+                Lattices(["square4x4", "brick4x4", "hex3x3", "fan5", "fan6", "fan4", "lens"], 12),
+                ListSystem("rebuilds", [{"base": b, "mob": m, "fit": f, "pre": pre, "rot": 0.1234 + 0.37 * seed}
+                                        for b in ("v5x5", "fan5") for m in (["m", 0.05, 0.02], ["id"]) for f in ("dlite", "taubinSVD")
+                                        for pre in (["excluding"], ["pi"], ["other_fit"], ["ignore_four"], ["excluding", "default"], ["ignore_four", "excluding"])], eval_rebuild)]
     return [Geometry(["v5x5"], 3, 24, seed),
             Geometry(["v6x5", "v6x6", "v5x4p%d" % (seed + 1)], 2, 48, seed),
             SubTissues("v5x5", [0, 1, 2, 5], [["id"], ["m", 0.05, 0.02], ["mc", 0.12, 0.05]]),
-            Lattices(["square4x4", "brick4x4", "hex3x3", "fan5", "fan6", "fan4", "lens"], 48)]
+            Lattices(["square4x4", "brick4x4", "hex3x3", "fan5", "fan6", "fan4", "lens"], 48),
+            ListSystem("rebuilds", [{"base": b, "mob": m, "fit": f, "pre": list(pre), "rot": 0.1234 + 0.37 * seed}
+                                    for b in ("v5x5", "v6x5", "fan5", "square4x4", "lens") for m in (["m", 0.05, 0.02], ["id"], ["mc", 0.12, 0.05]) for f in ("dlite", "taubinSVD")
+                                    for n_ in (1, 2) for pre in itertools.product(["excluding", "pi", "other_fit", "ignore_four", "default"], repeat=n_)], eval_rebuild)]
